@@ -385,8 +385,106 @@ Section CG.
     else cg_loop itmax bnrm tol 0%Z x0 r r (n1 O) err0.
 End CG.
 
+(* pmf_grid_too_small (after the fix "2-D/3-D PMF integration on a grid with a single point ..."): the constructor raises an
+   input error and integrate() returns 0 without touching data or err when a dimension of the PMF grid has fewer
+   than two points (only possible for a periodic variable whose bin width is its period) *)
+Definition shape_ok2 {T} (sh : shape2 (T:=T)) : bool :=
+  (2 <=? npmf (px sh) (nxg sh)) && (2 <=? npmf (py sh) (nyg sh)).
+Definition shape_ok3 {T} (sh : shape3 (T:=T)) : bool :=
+  (2 <=? npmf (qx sh) (mxg sh)) && (2 <=? npmf (qy sh) (myg sh)) && (2 <=? npmf (qz sh) (mzg sh)).
+
 (* integrate(itmax, tol, err), nd == 2 / nd == 3: solve  atimes(data) = divergence  starting from data *)
 Definition integrate2 {T} (O : NumOps T) (sh : shape2) (itmax : nat) (tol : T) (D data : ix2 -> T) (err0 : T) :=
-  cg_solve O ix2 ix2_eqb (all_ix2 sh) (atimes2 O sh) itmax tol D data err0.
+  if shape_ok2 sh then cg_solve O ix2 ix2_eqb (all_ix2 sh) (atimes2 O sh) itmax tol D data err0
+  else ((data, D), (0, err0)).
 Definition integrate3 {T} (O : NumOps T) (sh : shape3) (itmax : nat) (tol : T) (D data : ix3 -> T) (err0 : T) :=
-  cg_solve O ix3 ix3_eqb (all_ix3 sh) (atimes3 O sh) itmax tol D data err0.
+  if shape_ok3 sh then cg_solve O ix3 ix3_eqb (all_ix3 sh) (atimes3 O sh) itmax tol D data err0
+  else ((data, D), (0, err0)).
+
+(* ---------------------------------------------------------------------- atimes, nd == 2, loop by loop
+   The C++ fills LA with hand-indexed loops over the flat arrays: x terms are assigned (interior columns, then the
+   two edge columns in lockstep), y terms are added (interior rows, then the two edge rows in lockstep), every loop
+   written as first / middle / last with a running index.  This mirrors those loops statement by statement on flat
+   arrays (total functions of the flat index, pointwise update); LaplaceProofs.v proves it equal to the per-point
+   stencil atimes2 for every shape with at least two points per dimension. *)
+Definition updz {V} (g : Z -> V) (k : Z) (v : V) : Z -> V := fun q => if q =? k then v else g q.
+(* for (k = 0; k < n; k++) body *)
+Definition loopz {S} (n : Z) (body : Z -> S -> S) (s : S) : S := fold_left (fun s k => body k s) (zrange n) s.
+
+Section Loops2.
+  Context {T : Type} (O : NumOps T).
+  Variable sh : shape2 (T:=T).
+  Variable A : Z -> T.
+  Let w := npmf (px sh) (nxg sh).
+  Let h := npmf (py sh) (nyg sh).
+  Let ffx := ndiv O (n1 O) (nmul O (wx sh) (wx sh)).
+  Let ffy := ndiv O (n1 O) (nmul O (wy sh) (wy sh)).
+
+  (* periodic[k] ? 1.0 : 0.5 *)
+  Definition edgef (per : bool) : T := if per then n1 O else nhalf O.
+  (* [fact *] ff * (A[im] + A[ip] - 2.0 * A[i])   and   [fact *] ff * (A[inb] - A[i]) *)
+  Definition cen (ff : T) (f : option T) (i im ip : Z) : T :=
+    let core := nsub O (nadd O (A im) (A ip)) (nmul O (nofZ O 2) (A i)) in
+    match f with Some fa => nmul O (nmul O fa ff) core | None => nmul O ff core end.
+  Definition one_sided (ff : T) (f : option T) (i inb : Z) : T :=
+    let core := nsub O (A inb) (A i) in
+    match f with Some fa => nmul O (nmul O fa ff) core | None => nmul O ff core end.
+
+  (* LA[index] = v(index); index++ *)
+  Definition st_assign (v : Z -> T) (s : (Z -> T) * Z) : (Z -> T) * Z :=
+    (updz (fst s) (snd s) (v (snd s)), snd s + 1).
+  (* LA[index] += v(index); index++ *)
+  Definition st_add (v : Z -> T) (s : (Z -> T) * Z) : (Z -> T) * Z :=
+    (updz (fst s) (snd s) (nadd O (fst s (snd s)) (v (snd s))), snd s + 1).
+
+  (* All x components except on x edges *)
+  Definition xint (LA : Z -> T) : Z -> T :=
+    let fact := edgef (py sh) in
+    let term f idx := cen ffx f idx (idx - h) (idx + h) in
+    fst (loopz (w - 2) (fun _ s =>
+           let s := st_assign (term (Some fact)) s in
+           let s := loopz (h - 2) (fun _ s => st_assign (term None) s) s in
+           st_assign (term (Some fact)) s) (LA, h)).
+
+  (* Edges along x: LA[index] = ..; LA[index2] = ..; index++; index2++ with index from 0, index2 from h*(w-1) *)
+  Definition pair_assign (vl vr : Z -> T) (s : (Z -> T) * Z * Z) : (Z -> T) * Z * Z :=
+    let LA := updz (fst (fst s)) (snd (fst s)) (vl (snd (fst s))) in
+    let LA := updz LA (snd s) (vr (snd s)) in
+    (LA, snd (fst s) + 1, snd s + 1).
+  Definition xedge (LA : Z -> T) : Z -> T :=
+    let fact := edgef (py sh) in
+    let xm := if px sh then h * (w - 1) else - h in
+    let xp := h in
+    let tl f idx := if px sh then cen ffx f idx (idx + xm) (idx + xp) else one_sided ffx f idx (idx + xp) in
+    let tr f idx := if px sh then cen ffx f idx (idx - xp) (idx - xm) else one_sided ffx f idx (idx + xm) in
+    let s := pair_assign (tl (Some fact)) (tr (Some fact)) (LA, 0, h * (w - 1)) in
+    let s := loopz (h - 2) (fun _ s => pair_assign (tl None) (tr None) s) s in
+    fst (fst (pair_assign (tl (Some fact)) (tr (Some fact)) s)).
+
+  (* All y components except on y edges: index from 1, skipping the two edge elements of each column *)
+  Definition yint (LA : Z -> T) : Z -> T :=
+    let term f idx := cen ffy (Some f) idx (idx - 1) (idx + 1) in
+    fst (fst (loopz w (fun i s =>
+           let fact := if i =? 1 then n1 O else snd s in
+           let fact := if i =? w - 1 then edgef (px sh) else fact in
+           let s' := loopz (h - 2) (fun _ s => st_add (term fact) s) (fst s) in
+           (fst s', snd s' + 2, fact)) (LA, 1, edgef (px sh)))).
+
+  (* Edges along y: index from 0, index2 from h-1, both advancing by h *)
+  Definition pair_add (vl vr : Z -> T) (s : (Z -> T) * Z * Z) : (Z -> T) * Z * Z :=
+    let LA := fst (fst s) in
+    let LA := updz LA (snd (fst s)) (nadd O (LA (snd (fst s))) (vl (snd (fst s)))) in
+    let LA := updz LA (snd s) (nadd O (LA (snd s)) (vr (snd s))) in
+    (LA, snd (fst s) + h, snd s + h).
+  Definition yedge (LA : Z -> T) : Z -> T :=
+    let fact := edgef (px sh) in
+    let ym := if py sh then h - 1 else -1 in
+    let yp := 1 in
+    let tl f idx := if py sh then cen ffy f idx (idx + ym) (idx + yp) else one_sided ffy f idx (idx + yp) in
+    let tr f idx := if py sh then cen ffy f idx (idx - yp) (idx - ym) else one_sided ffy f idx (idx + ym) in
+    let s := pair_add (tl (Some fact)) (tr (Some fact)) (LA, 0, h - 1) in
+    let s := loopz (w - 2) (fun _ s => pair_add (tl None) (tr None) s) s in
+    fst (fst (pair_add (tl (Some fact)) (tr (Some fact)) s)).
+
+  Definition atimes2_loops (LA : Z -> T) : Z -> T := yedge (yint (xedge (xint LA))).
+End Loops2.
